@@ -28,6 +28,7 @@ import (
 	"github.com/google/badwolf/triple"
 	"github.com/google/badwolf/triple/node"
 	"github.com/google/badwolf/triple/predicate"
+	"github.com/pborman/uuid"
 )
 
 const initialAllocation = 10000
@@ -313,7 +314,7 @@ func isImmutableFilter(memoryTriples map[string]*triple.Triple, pQuery *predicat
 
 	trps := make(map[string]*triple.Triple)
 	for _, t := range memoryTriples {
-		if pQuery != nil && pQuery.String() != t.Predicate().String() {
+		if pQuery != nil && !uuid.Equal(pQuery.UUID(), t.Predicate().UUID()) {
 			continue
 		}
 
@@ -344,7 +345,7 @@ func isTemporalFilter(memoryTriples map[string]*triple.Triple, pQuery *predicate
 
 	trps := make(map[string]*triple.Triple)
 	for _, t := range memoryTriples {
-		if pQuery != nil && pQuery.String() != t.Predicate().String() {
+		if pQuery != nil && !uuid.Equal(pQuery.UUID(), t.Predicate().UUID()) {
 			continue
 		}
 
@@ -376,7 +377,7 @@ func latestFilter(memoryTriples map[string]*triple.Triple, pQuery *predicate.Pre
 	lastTA := make(map[string]*time.Time)
 	trps := make(map[string]map[string]*triple.Triple)
 	for _, t := range memoryTriples {
-		if pQuery != nil && pQuery.String() != t.Predicate().String() {
+		if pQuery != nil && !uuid.Equal(pQuery.UUID(), t.Predicate().UUID()) {
 			continue
 		}
 
